@@ -152,6 +152,11 @@ class Runtime:
     def outcome(self, run, nid, kw, k):
         spec = self.runs[run]
         plan = spec.get('plan', {}).get(nid) or ['ok']
+        byit = spec.get('plan_it', {}).get(nid)
+        if byit:
+            # the outcome may depend on the epoch: the number of re-iterations visible in the arguments
+            ep = max_any_data_index(kw)
+            plan = byit[min(ep, len(byit) - 1)]
         o = plan[min(k, len(plan)) - 1]
         seq = spec.get('recseq', {}).get(nid)
         if seq is not None and o == 'ok':
@@ -180,7 +185,7 @@ class Runtime:
             self.log(e='BodyEnd', r=run, n=nid, kw=kw, k=k, out=('raise', tok), t=self.now_ms(), act=self.act)
             raise ex
         if o.startswith('rec:'):
-            data = ('data', nid, int(o.split(':')[1]))
+            data = ('data', nid, int(o.split(':')[1]), kw)    # the payload depends on what the destination saw
             if nid in self.runs[run].get('recfalsy', ()):
                 # a falsy payload is still a payload: the start node must receive it
                 self.log(e='BodyEnd', r=run, n=nid, kw=kw, k=k, out=('rec', ('falsy',)), t=self.now_ms(), act=self.act)
@@ -276,8 +281,26 @@ def max_data_index(term, dest):
     while stack:
         t = stack.pop()
         if isinstance(t, tuple):
-            if len(t) == 3 and t[0] == 'data' and t[1] == dest and isinstance(t[2], int):
+            if len(t) == 4 and t[0] == 'data' and isinstance(t[2], int):
+                # the payload of ANOTHER destination is opaque: an enclosing sub-graph's re-iteration starts the inner
+                # sub-graph afresh (its destination does not see its own earlier requests through that payload)
+                if t[1] == dest:
+                    best = max(best, t[2])
+                    stack.append(t[3])
+            else:
+                stack.extend(t)
+    return best
+
+
+def max_any_data_index(term):
+    best = 0
+    stack = [term]
+    while stack:
+        t = stack.pop()
+        if isinstance(t, tuple):
+            if len(t) == 4 and t[0] == 'data' and isinstance(t[2], int):
                 best = max(best, t[2])
+                stack.append(t[3])
             else:
                 stack.extend(t)
     return best
